@@ -97,6 +97,13 @@ def build(desc):
         if fmt == gtirb.Module.FileFormat.ELF:
             m.aux_data["elfSymbolInfo"].data[s] = (0, "FUNC", "GLOBAL", "DEFAULT", 0)
 
+    # absolute (integer-valued) symbols: they have no referent block
+    model.abs_syms = list(desc.get("abs_syms", []))
+    for i, name in enumerate(model.abs_syms):
+        s = gtirb.Symbol(name, payload=0x7F000000 + 8 * i)  # far away from every address of the module (gtirb_layout turns address-like integers into block referents)
+        m.symbols.add(s)
+        syms[name] = s
+
     blocks = {}  # block id -> gtirb block
     tok_block = {}  # first tok id of block -> block
     pending_sx = []  # (interval, abs offset, size, role, item, target)
@@ -256,6 +263,8 @@ def build(desc):
 
     if desc.get("entry_point"):
         m.entry_point = blocks[desc["entry_point"]]
+    if desc.get("safe_seh"):
+        m.aux_data["peSafeExceptionHandlers"] = gtirb.AuxData(type_name="set<UUID>", data={blocks[b] for b in desc["safe_seh"]})
     for key, table in (("dt_init", "elfDynamicInit"), ("dt_fini", "elfDynamicFini")):
         if desc.get(key):
             m.aux_data[table] = gtirb.AuxData(type_name="UUID", data=blocks[desc[key]])
